@@ -22,6 +22,7 @@ import (
 	"github.com/tetratelabs/wazero/imports/wasi_snapshot_preview1"
 	"github.com/tetratelabs/wazero/internal/verifhook"
 	"github.com/tetratelabs/wazero/internal/wasm"
+	"github.com/tetratelabs/wazero/sys"
 	"github.com/tetratelabs/wazero/verifharness/core"
 	"github.com/tetratelabs/wazero/verifharness/wenc"
 )
@@ -36,12 +37,14 @@ type opSpec struct {
 	X  uint32 `json:"x,omitempty"`  // exit code
 	CC bool   `json:"cc,omitempty"` // compile: close the CompiledModule afterwards
 	F  int    `json:"f,omitempty"`  // instantiate: 1 = mount a counting FS and open a file on it, 2 = that file's Close fails
+	S  int    `json:"s,omitempty"`  // InstantiateWithConfig: start function behaviour (sReturn..sCallPeer), exit code X
+	N2 int    `json:"n2,omitempty"` // sCallPeer: name of the peer instance
 }
 
 func (o opSpec) String() string {
 	switch {
 	case o.K.isInst() || o.K == kLookup:
-		return fmt.Sprintf("%s(%s%s)", kindShort[o.K], nameStr(o.N), resMark[o.F])
+		return fmt.Sprintf("%s(%s%s)", kindShort[o.K], nameStr(o.N), lop{F: o.F, S: o.S, X: o.X, N2: o.N2}.mark())
 	case o.K == kClose || o.K == kIsClosed:
 		return fmt.Sprintf("%s(h%d)", kindShort[o.K], o.H)
 	case o.K == kCloseX:
@@ -76,6 +79,10 @@ func genOp(r *core.Rng, withRC bool) opSpec {
 		o.K = kInst
 	case w < 28:
 		o.K = kInstBin
+		if r.Bool() { // start function outcome (the peer variant only runs in sequential scripts)
+			o.S = 1 + r.Intn(sCallPeer-1)
+			o.X = uint32(r.Intn(3))
+		}
 	case w < 34:
 		o.K = kHostInst
 	case w < 52:
@@ -140,23 +147,72 @@ func genScript(r *core.Rng, engine int) *script {
 	return sc
 }
 
-// uniqueBin is a tiny module whose single function type (k i32 parameters) is
-// unknown to the store and whose module id is unique within a history.
-func uniqueBin(k int) []byte {
+// envName is the harness's host module every guest imports from.
+const envName = "c10env"
+
+// instantiateEnv adds the host functions the guests' start functions use. The
+// api.Module a Go host function receives is the calling instance.
+func instantiateEnv(rt wazero.Runtime) {
+	_, err := rt.NewHostModuleBuilder(envName).
+		NewFunctionBuilder().WithFunc(func(_ context.Context, _ api.Module, n uint32) {
+		panic(sys.NewExitError(n)) // an exit error surfacing without anything having been closed
+	}).Export("panic_exit").
+		NewFunctionBuilder().WithFunc(func(ctx context.Context, m api.Module, n uint32) {
+		_ = m.CloseWithExitCode(ctx, n) // the guest goes on and returns
+	}).Export("close_self").
+		NewFunctionBuilder().WithFunc(func(ctx context.Context, m api.Module, n uint32) {
+		_ = m.CloseWithExitCode(ctx, n) // what WASI proc_exit does
+		panic(sys.NewExitError(n))
+	}).Export("exit").
+		Instantiate(bg)
+	if err != nil {
+		panic(err)
+	}
+}
+
+// guestBin builds a tiny guest: a function type of k i32 parameters (k > 0:
+// unknown to the store, which also makes the module id unique within a
+// history), an export "boom"(n) that exits the instance itself with code n,
+// and for start != sNone an export "_start" with the given behaviour.
+func guestBin(k, start int, x uint32, peer int) []byte {
 	m := &wenc.Module{}
+	i32 := []wenc.ValType{wenc.I32}
+	fPanic := m.ImportFunc(envName, "panic_exit", i32, nil)
+	fClose := m.ImportFunc(envName, "close_self", i32, nil)
+	fExit := m.ImportFunc(envName, "exit", i32, nil)
+	var fPeer uint32
+	if start == sCallPeer {
+		fPeer = m.ImportFunc(modNames[peer], "boom", i32, nil)
+	}
 	params := make([]wenc.ValType, k)
 	for i := range params {
 		params[i] = wenc.I32
 	}
 	m.ExportFunc("f", m.AddFunc(params, nil, nil, (&wenc.Code{}).End().B))
+	m.ExportFunc("boom", m.AddFunc(i32, nil, nil, (&wenc.Code{}).LocalGet(0).Call(fExit).End().B))
+	c := &wenc.Code{}
+	switch start {
+	case sNone:
+		return m.Encode()
+	case sReturn:
+	case sTrap:
+		c.Unreachable()
+	case sPanicExit:
+		c.I32Const(int32(x)).Call(fPanic)
+	case sCloseSelf:
+		c.I32Const(int32(x)).Call(fClose)
+	case sExit:
+		c.I32Const(int32(x)).Call(fExit)
+	case sCallPeer:
+		c.I32Const(int32(x)).Call(fPeer)
+	}
+	m.ExportFunc("_start", m.AddFunc(nil, nil, nil, c.End().B))
 	return m.Encode()
 }
 
-var baseBin = func() []byte {
-	m := &wenc.Module{}
-	m.ExportFunc("f", m.AddFunc(nil, nil, nil, (&wenc.Code{}).End().B))
-	return m.Encode()
-}()
+func uniqueBin(k int) []byte { return guestBin(k, sNone, 0, 0) }
+
+var baseBin = guestBin(0, sNone, 0, 0)
 
 // fsBin imports WASI path_open and opens the file "f" of preopen 3 in _start.
 var fsBin = func() []byte {
@@ -330,7 +386,10 @@ var bg = context.Background()
 
 func classifyInstErr(err error) (resKind, string) {
 	s := err.Error()
+	var ee *sys.ExitError
 	switch {
+	case errors.As(err, &ee), strings.Contains(s, "function[") && strings.Contains(s, "] failed"):
+		return rStartFail, s // the start function ran and failed
 	case strings.Contains(s, "has already been instantiated"):
 		return rDup, ""
 	case strings.Contains(s, "closed"):
@@ -372,9 +431,19 @@ func (h *hist) exec(client int, sp opSpec, hs *[]api.Module, bin []byte) (r rec)
 	instDone := func(m api.Module, err error) {
 		if err != nil {
 			r.res, r.err = classifyInstErr(err)
+			if r.res == rStartFail && m != nil {
+				r.mod = m // InstantiateModule hands the (closed) module back along with the error
+				if !m.IsClosed() {
+					r.res = rStartFailOpen
+				}
+			}
 			return
 		}
 		r.res, r.mod = rOK, m
+		if sp.S != sNone && m.IsClosed() {
+			r.res = rOKClosed // the start function ended the instance; no handle worth keeping
+			return
+		}
 		*hs = append(*hs, m)
 		if r.cfs != nil {
 			if e := openOn(m); e != "" {
@@ -422,8 +491,8 @@ func (h *hist) exec(client int, sp opSpec, hs *[]api.Module, bin []byte) (r rec)
 		cfg := withRes(wazero.NewModuleConfig().WithName(name))
 		r.call = h.tick()
 		m, err := h.rt.InstantiateWithConfig(ctx, bin, cfg)
+		instDone(m, err) // with a start function: includes looking at IsClosed, inside the stamped interval
 		r.ret = h.tick()
-		instDone(m, err)
 	case kHostInst:
 		b := h.rt.NewHostModuleBuilder(name).NewFunctionBuilder().WithFunc(func() {}).Export("f")
 		r.call = h.tick()
@@ -553,6 +622,7 @@ func runHistory(sc *script, hc hookCfg, mode string) *histOut {
 	h := &hist{stamp: mode == "conc", engine: sc.Engine}
 	h.rt = wazero.NewRuntimeWithConfig(bg, rtConfig(sc.Engine))
 	var err error
+	instantiateEnv(h.rt)
 	if h.cm, err = h.rt.CompileModule(bg, baseBin); err != nil {
 		panic(err)
 	}
@@ -567,7 +637,7 @@ func runHistory(sc *script, hc hookCfg, mode string) *histOut {
 		bins[g] = make([][]byte, len(ops))
 		for i, o := range ops {
 			if o.K == kInstBin || o.K == kCompile {
-				bins[g][i] = uniqueBin(k)
+				bins[g][i] = guestBin(k, o.S, o.X, o.N2)
 				k++
 			}
 		}
@@ -645,6 +715,18 @@ func (h *hist) finish(out *histOut, sc *script, recs []rec, hk *hookState) {
 				failing[o.ID] = true
 			}
 		}
+		if r.kind == kInstBin {
+			o.S, o.N2 = r.spec.S, r.spec.N2
+		}
+		if r.spec.S != sNone && o.ID != 0 { // exit codes the start function may have closed it with
+			if modCodes[o.ID] == nil {
+				modCodes[o.ID] = map[uint32]bool{}
+			}
+			modCodes[o.ID][0], modCodes[o.ID][r.spec.X] = true, true
+		}
+		if r.spec.S == sCallPeer {
+			rtCodes[r.spec.X] = true // the peer's exit code (its id is not known here)
+		}
 		o.fill()
 		out.lops = append(out.lops, o)
 		out.ops[kindName[r.kind]+"="+resName[r.res]]++
@@ -695,6 +777,20 @@ func (h *hist) finish(out *histOut, sc *script, recs []rec, hk *hookState) {
 		}
 		n := atomic.LoadInt32(&r.inst.notif)
 		id := idOf(r.mod)
+		ended := r.res == rOKClosed || r.res == rStartFail || r.res == rStartFailOpen
+		if ended && r.mod != nil {
+			out.ops["instantiations-ended-by-their-start-function"]++
+			what := fmt.Sprintf("%s(%q) whose start function did %q", kindName[r.kind], modNames[r.name], startName[r.spec.S])
+			if r.res == rStartFailOpen {
+				out.add("start-function-failed:module-left-open", what+" returned the error "+r.err+" but left the module open (IsClosed()==false on return)", witness())
+			}
+			if n == 0 {
+				out.add("start-function-failed:close-notify-lost", what+": the instance's CloseNotifier never fired", witness())
+			}
+		}
+		if r.res == rOK && r.spec.S >= sPanicExit && r.spec.S <= sCallPeer {
+			out.add("start-function-exited:module-left-open", fmt.Sprintf("%s(%q): the start function did %q with exit code %d, the call returned no error and an open module", kindName[r.kind], modNames[r.name], startName[r.spec.S], r.spec.X), witness())
+		}
 		switch {
 		case r.res == rOK && n == 0:
 			out.add("close-notify:lost", fmt.Sprintf("%s(%q) returned module m%d, the runtime is closed, but its CloseNotifier never fired", kindName[r.kind], modNames[r.name], id), witness())
